@@ -70,3 +70,36 @@ package scenario
 //@   pure
 //@   ensures [tasksNonNil] forall i int :: 0 <= i && i < len(result) ==> result[i] != nil
 //@ end
+
+// ---- C10 (helper scb): the scenario constructor as seen by NewPodAccumulatedScenarioBuilder -----------------------
+// Trusted: NewBaseScenario clones every recorded victim job (CloneWithTasks: sub-group tree clone, DeepCopyInto) and
+// re-reads pod maps - outside the subset. The preconditions are what the bodies of NewByNodeScenario / NewBaseScenario /
+// appendTasksAsVictimJob dereference and are CHECKED at the call site:
+//  * pendingTasksAsJob.GetAllPodsMap(): no nil pod set;
+//  * per recorded victim job: GetAllPodsMap (no nil pod set), then appendTasksAsVictimJob(tasks) reads tasks[0] - so the
+//    job must hold AT LEAST ONE pod (a recorded victim job without pods makes tasks[0] panic: index out of range) -,
+//    looks the task's job up in session.ClusterInfo.PodGroupInfos and calls CloneWithTasks on it (must be present);
+//  * per potential victim task: the same lookup, plus task.NodeName / task.Job.
+// "the job holds at least one pod"
+//@ define hasPod(j *podgroup_info.PodGroupInfo) bool = exists k string, u common_info.PodID :: k in j.PodSets && u in j.PodSets[k].podInfos
+//@ define podsKnown(ss *framework.Session, j *podgroup_info.PodGroupInfo) bool = forall k in j.PodSets :: forall u in j.PodSets[k].podInfos :: ss.ClusterInfo.PodGroupInfos[j.PodSets[k].podInfos[u].Job] != nil
+//@ define victimJobOK(ss *framework.Session, j *podgroup_info.PodGroupInfo) bool = podgroup_info.setsOK(j) && podgroup_info.allTasksOK(j) && hasPod(j) && podsKnown(ss, j)
+//@ func NewByNodeScenario
+//@   props C10
+//@   trusted
+//@   note trusted: clones the recorded victim jobs (CloneWithTasks: sub-group tree clone, metav1.Time.DeepCopyInto) - outside the subset; only "a new scenario with its embedded BaseScenario, the given preemptor and session" is assumed
+//@   requires podgroup_info.setsOK(pendingTasksAsJob)
+//@   requires len(recordedVictimsJobs) > 0 || len(potentialVictimsTasks) > 0 ==> session != nil && session.ClusterInfo != nil
+//@   # victimJobOK of every recorded victim job, one fact per clause
+//@   requires [victimJobSets] forall i int :: 0 <= i && i < len(recordedVictimsJobs) ==> podgroup_info.setsOK(recordedVictimsJobs[i])
+//@   requires [victimJobTasks] forall i int :: 0 <= i && i < len(recordedVictimsJobs) ==> podgroup_info.allTasksOK(recordedVictimsJobs[i])
+//@   requires [victimJobNotEmpty] forall i int :: 0 <= i && i < len(recordedVictimsJobs) ==> hasPod(recordedVictimsJobs[i])
+//@   requires [victimJobKnown] forall i int :: 0 <= i && i < len(recordedVictimsJobs) ==> podsKnown(session, recordedVictimsJobs[i])
+//@   requires forall i int :: 0 <= i && i < len(potentialVictimsTasks) ==> potentialVictimsTasks[i] != nil && session.ClusterInfo.PodGroupInfos[potentialVictimsTasks[i].Job] != nil
+//@   note frame (assumed): nothing that existed before the call is written - the scenario, its maps / slices and the job clones (CloneWithTasks adds CLONES of the tasks to the new job) are all allocated by the constructor
+//@   fresh
+//@   ensures [assumed] result != nil && result.BaseScenario != nil && fresh(result.BaseScenario)
+//@   ensures [assumed] result.BaseScenario.preemptor == originalJob && result.BaseScenario.session == session
+//@   ensures [assumed] podgroup_info.allTasksOK(pendingTasksAsJob) ==> (forall i int :: 0 <= i && i < len(result.BaseScenario.pendingTasks) ==> result.BaseScenario.pendingTasks[i] != nil)
+//@   ensures [assumed] forall i int :: 0 <= i && i < len(result.BaseScenario.potentialVictimsTasks) ==> result.BaseScenario.potentialVictimsTasks[i] != nil
+//@ end
